@@ -353,7 +353,7 @@ def _site_check(ctx, loc, site, events, compare, need_all, observed):
     case0 = {"locus": loc["locus"], "site": site, "samples_in_program_order": order, "n_calls": len(events)}
     bad = [e for e in events if "record_error" in e]
     if bad:
-        raise C.Infra(f"plumbing recorder could not bind a call of {site}: {bad[0]['record_error']}")
+        raise C.ProgramAbort(f"plumbing recorder could not bind a call of {site}: {bad[0]['record_error']}")
     if len(events) > len(order) or (need_all and len(events) != len(order)):
         ctx.violation(f"{len(events)} call(s) of {site} at locus {loc['locus']} for {len(order)} sample(s) "
                       f"(one per sample is needed: a sample has a called genotype)",
@@ -599,7 +599,7 @@ def check_run(chk, prop, program, run, truth, tag, rec):
             chk.count("plumbing:call-pedigree:PedigreeCallingMCMC.fit", len(fits))
             case0 = {"locus": loc["locus"], "site": "PedigreeCallingMCMC.fit", "samples_in_program_order": order}
             if any("record_error" in e for e in fits):
-                raise C.Infra("plumbing recorder could not bind PedigreeCallingMCMC.fit")
+                raise C.ProgramAbort("plumbing recorder could not bind PedigreeCallingMCMC.fit")
             if len(fits) > 1 or (valid and len(fits) != 1):
                 ctx.violation(f"{len(fits)} pedigree fits at locus {loc['locus']} (one is needed)", case0, "calls")
             for e in fits:
